@@ -1021,6 +1021,7 @@ void gen_c08(Gen &g) {
   if (huge) {
     maxq = 280;
     p.world.step_budget = 2000000000L;
+    t.ops[0].k = 4100000;  // the twin's caller buffer has to hold the padded output as well
   }
   if (huge)
     target = lib_geometry().step * r.range(150, maxq) + r.range(-25, 25);
